@@ -30,6 +30,12 @@ for var in ("accumuDistance", "accumuTotalCycles", "accumuAccumulatedPower"):
     known("C08", "C08-R1-global-write", "fit.%s@%s" % (var, RM), w, wit)
     known("C09", "C09-R1-shared-write", "fit.%s@%s" % (var, RM), w + " (data race between concurrent Decode calls)", wit)
 
+# C07 view of D11: only the distance accumulator has a non-zero mask at HEAD, so only it makes the
+# decode of Encode's output differ from the File that was encoded.
+known("C07", "C07-R4-expansion-idempotent", "fit.accumuDistance",
+      "accumulator accumuDistance is a package-level variable that is never reset: decoding Encode's output continues the running sum of the first decode, so Records[i].Distance of the re-decoded File differs from the File that was encoded (same defect as C08/C09/C18 D11, seen by the round trip)",
+      "Decode a file whose records carry compressed_speed_distance (testdata/python-fitparse/compressed-speed-distance.fit), Encode the File, Decode the output in the same process: the distances of the second File continue from the last distance of the first")
+
 # C18 view of the same accumulators: never reset, so accumulation is not per file (D11), two of them are
 # built as zero values with mask 0 (D12), and the 12-bit distance loses its top nibble (D13).
 for var in ("accumuDistance", "accumuTotalCycles", "accumuAccumulatedPower"):
